@@ -513,7 +513,10 @@ func runC13(r *Report, tier string) {
 				continue
 			}
 			o := r.ob("R13.5", shortFn(cf)+":exit:"+exitID(P, cf, x), cf, x.ret, "crit: []any, non-empty, every element int|tstr and present in the same map")
-			miss, _ := x.facts.firstMissing([]factPat{fp("res<1>(typeassert<[]any,ok>($0))"), fp("!binop<==>(0, len(res<0>(typeassert<[]any,ok>($0))))")}, nil)
+			miss, _ := x.facts.firstMissing([]factPat{fp("res<1>(typeassert<[]any,ok>($0))")}, nil)
+			if miss == "" && !x.facts.holdsNonEmpty(arr) {
+				miss = "len(crit array) != 0"
+			}
 			why := ""
 			switch {
 			case miss != "":
